@@ -15,7 +15,7 @@ use crate::nodes::{
     VariableAssignment,
 };
 use crate::process::{
-    to_expression, DefaultVisitor, IdentifierTracker, NodeProcessor, NodeVisitor, ScopeVisitor,
+    to_expression, IdentifierTracker, NodeProcessor, NodeVisitor, ScopeVisitor,
 };
 use crate::rules::require::{is_require_call, match_path_require_call, PathLocator};
 use crate::rules::{
@@ -225,7 +225,7 @@ impl<'a, 'b, 'resources, PathLocatorImpl: PathLocator>
                     let current_source = mem::replace(&mut self.source, path.to_path_buf());
 
                     let apply_processor_timer = Timer::now();
-                    DefaultVisitor::visit_block(&mut block, self);
+                    ScopeVisitor::visit_block(&mut block, self);
 
                     log::debug!(
                         "processed `{}` into bundle in {}",
